@@ -50,6 +50,25 @@ def run(ctx):
     co = vlib.code(301, lines)
     mo = vlib.model(301, lines)
     ro = vlib.model(302, lines)
+    # the forwarding Sink impls (&mut S, Box<S>): every third case also runs with a boxed dyn sink
+    bidx = list(range(0, len(lines), 3))
+    bo = vlib.code(303, [lines[i] for i in bidx])
+    for i, b in zip(bidx, bo):
+        if b != co[i]:
+            ctx.violation("a sink behind `&mut Box<dyn Sink>` receives different calls than the sink itself",
+                          dict(kind=303, line=lines[i], case=sg.describe(cases[i]), direct=co[i], boxed=b))
+    # numbering, offsets and the final byte count must not depend on what the same Searcher searched before
+    import os
+    import sys
+    sys.path.insert(0, os.path.dirname(os.path.abspath(__file__)))
+    import C02 as c02
+    ridx = [i for i in range(0, len(cases), 5) if not cases[i]["cfg"]["stop_on_nonmatch"]]
+    rl = [c02.reader_line(cases[i], None, 64, None, []) for i in ridx]
+    fresh, reused = vlib.code(202, rl), vlib.code(203, rl)
+    for i, a, b in zip(ridx, fresh, reused):
+        if a != b:
+            ctx.violation("a reused Searcher reports different coordinates / byte count than a fresh one",
+                          dict(kind=203, line=rl[ridx.index(i)], case=sg.describe(cases[i]), fresh=a, reused=b))
     feat = {}
     for case, line, c, m, r in zip(cases, lines, co, mo, ro):
         ev = parse_val(c)[1] if c.startswith("(") else []
